@@ -452,7 +452,9 @@ def rfcNum : Mode → Int
 
 /-- the callback `eav_is_email` will call -/
 def modeOfObj (e : EavT) : Option Mode :=
-  if e.utf8 then (if e.utf8Cb then some .m6531 else none) else e.asciiCb
+  match selectedMode e with
+  | .ok m => some m
+  | .error _ => none
 
 /-- after `eav_init; rfc = m0; eav_setup; rfc = m; eav_setup`: both calls returned 0, the callback of mode `m`
 is the one selected, no result is held yet -/
@@ -483,34 +485,18 @@ theorem eavIsEmail_spec (b : Build) (conv : List Nat → Conv) (st : State) (e :
            .ok ({ st with liveResults := st.liveResults + 1,
                           obj := some { e with result := some r, errcode := ec, idnmsg := msg } }, ret)) := by
   unfold eavIsEmail
-  simp only [hobj, hres, Option.isSome_none, Bool.false_and, Bool.false_eq_true, if_false]
-  unfold modeOfObj at hm
-  cases hu : e.utf8 with
-  | true =>
-    simp only [hu, if_true] at hm
-    cases hc : e.utf8Cb with
-    | false => simp [hc] at hm
-    | true =>
-      simp only [hc, if_true, Option.some.injEq] at hm
-      subst hm
-      simp only [bind, Except.bind, pure, Except.pure, hc, if_true]
-      cases hi : isEmail b conv Mode.m6531 a e.tldCheck with
-      | error f => rfl
-      | ok r =>
-        simp only
-        cases hv : verdictOf e.allowTld r with
-        | error f => rfl
-        | ok p => obtain ⟨ret, ec, msg⟩ := p; rfl
-  | false =>
-    simp only [hu, Bool.false_eq_true, if_false] at hm
-    simp only [bind, Except.bind, pure, Except.pure, hm, Bool.false_eq_true, if_false]
-    cases hi : isEmail b conv m a e.tldCheck with
+  have hsel : selectedMode e = .ok m := by
+    unfold modeOfObj at hm
+    cases h : selectedMode e with
+    | ok m' => simp [h] at hm; rw [hm]
+    | error f => simp [h] at hm
+  simp only [hobj, hres, Option.isSome_none, Bool.false_and, Bool.false_eq_true, if_false, hsel, Nat.add_zero]
+  cases isEmail b conv m a e.tldCheck with
+  | error f => rfl
+  | ok r =>
+    cases verdictOf e.allowTld r with
     | error f => rfl
-    | ok r =>
-      simp only
-      cases hv : verdictOf e.allowTld r with
-      | error f => rfl
-      | ok p => obtain ⟨ret, ec, msg⟩ := p; rfl
+    | ok p => rfl
 
 /-! ### non-vacuity -/
 example : accepted {} (fun _ => ⟨0, none⟩) .m5321 [97, 64, 98, 46, 99] :=                                  -- a@b.c
